@@ -145,8 +145,18 @@ class Tmatrix(ScatteringTheory):
             raise InvalidScatterer(scatterer, msg)
         for s in [s11, s12, s21, s22]:
             s *= (-2j*np.pi/med_wavelen)
-        scat_matr = np.array([[s11, s12], [s21, s22]]).transpose()
-        return scat_matr
+        # ampld returns the amplitude matrix of Mishchenko et al., which
+        # relates the (theta, phi) components of the scattered field to the
+        # (x, y) components of a wave incident along z. HoloPy's convention
+        # (Bohren & Huffman) uses components parallel and perpendicular to
+        # the scattering plane for both fields:
+        #     e_par,inc = (cos phi, sin phi), e_perp,inc = (sin phi, -cos phi)
+        #     e_par,sca = e_theta,            e_perp,sca = -e_phi
+        phi = np.asarray(args[13]) * np.pi / 180
+        c, s = np.cos(phi), np.sin(phi)
+        scat_matr = np.array([[s11*c + s12*s, s11*s - s12*c],
+                              [-(s21*c + s22*s), -(s21*s - s22*c)]])
+        return np.moveaxis(scat_matr, -1, 0)
 
     def raw_fields(self, pos, scatterer, medium_wavevec, medium_index,
                     illum_polarization):
@@ -169,10 +179,7 @@ class Tmatrix(ScatteringTheory):
 
         for i, point in enumerate(pos.T):
             kr, theta, phi = point
-            # TODO: figure out why postfactor is needed -- it is not used in dda.py
-            postfactor = np.array([[np.cos(phi),np.sin(phi)],
-                                   [-np.sin(phi),np.cos(phi)]])
-            escat_sph = mieangfuncs.calc_scat_field(kr, phi,
-                                    np.dot(scat_matr[i],postfactor), [1,0])
+            escat_sph = mieangfuncs.calc_scat_field(kr, phi, scat_matr[i],
+                                                    [1, 0])
             fields[i] = mieangfuncs.fieldstocart(escat_sph, theta, phi)
         return fields.T
